@@ -187,6 +187,31 @@ CHECKS = {
         note='Reference layouts in vf/refcodec.py and struct; corruptions that make a device read run past the 1-wire memory are not generated.',
         technique='reference-encoder / decoder oracles on images captured at a byte-array memory handler; corruption sweep',
         engine='codec-oracles', design='DESIGN.md §3 C14'),
+    'C01': dict(
+        level='fault_enumeration',
+        text=('The real _RadioDriverThread (layer A) and the whole RadioDriver/RadioManager/_SharedRadio/Crazyradio stack over a '
+              'fake USB dongle (layer B) run under the deterministic scheduler against an independent model of the Crazyflie\'s '
+              'ESB safelink peer. Every transmission consumes one scripted outcome (acked / uplink lost / ack lost): ALL words '
+              'up to length 5 (quick) / 7 (thorough) with sampled submission schedules, random and bursty words up to 2000 '
+              'transmissions with 1..3 submitter threads, every number 0..10 of lost negotiation exchanges, peers without '
+              'safelink or echoing garbage. Monitors: frames accepted by the peer == packets accepted by send_packet (order, '
+              'once), packets returned by receive_packet == packets the peer dequeued, link error at exactly the N-th '
+              'consecutive unacknowledged transmission (N in 2,3,5,100), sequence bits only after a confirmed echo, '
+              'needs_resending consistent, drained after losses stop.'),
+        note='Outcome words exhaustive to the stated length; submission positions, schedules and long words sampled. ARC retries of the dongle are not modelled separately.',
+        technique='peer-model monitor over the frame log (exactly-once / ordering / alternating-bit conformance); fault-word enumeration under a deterministic scheduler',
+        engine='detsched+radiosim', design='DESIGN.md §3 C01'),
+    'C18': dict(
+        level='exploration',
+        text=('CPXPacket encode/decode for all targets x functions x flag x boundary payload lengths against the reference '
+              'layout and rejection of versions 1..3; SocketTransport.readPacket over a scripted in-memory socket for streams of '
+              '1..4 packets (<=14 bytes) under ALL 2^(B-1) cut patterns and long streams under dribble / random / '
+              'inside-the-length-prefix cuts; CPXRouter, TcpDriver and SerialDriver (fake serial module with the UART '
+              'flow-control handshake) running their real threads under the deterministic scheduler: per-function arrival '
+              'order, and CRTP packets with every payload length 0..30 unchanged in both directions.'),
+        note='Receive-side fragmentation only (socket.send is assumed to take the whole buffer); queues created before packets arrive.',
+        technique='reference-codec oracle + exhaustive fragmentation sweep on a scripted socket; thread-level monitors under a deterministic scheduler',
+        engine='codec-oracles', design='DESIGN.md §3 C18'),
 }
 
 PENDING_REASON = ('check not built yet in this work session (design in DESIGN.md §3); nothing is claimed for it '
@@ -235,6 +260,8 @@ def manifest():
             {'name': 'lighthouse-oracles', 'path': 'vf/lhgen.py, vf/checks/c09.py c15.py c16.py',
              'serves_properties': [p for p in ('C09', 'C15', 'C16') if p in CHECKS],
              'kind_free_text': 'room / pose generators with ground truth and independent numpy reference computations'},
+            {'name': 'detsched+radiosim', 'path': 'vf/detsched.py, vf/radiosim.py', 'serves_properties': ['C01', 'C20'],
+             'kind_free_text': 'deterministic scheduler + ESB safelink peer model + fake Crazyradio USB device'},
             {'name': 'pump', 'path': 'vf/checks/c07.py', 'serves_properties': ['C07'],
              'kind_free_text': 'the dispatcher loop run in the harness thread over a scripted link (no scheduler)'},
             {'name': 'detsched+simcf', 'path': 'vf/detsched.py, vf/simcf.py, vf/simlink.py',
